@@ -90,16 +90,20 @@ def observe(conv, battery, lsp):
 # ---------------------------------------------------------------------------------------- schedules
 
 class Harness:
-    """One per worker process (fresh import, forward references never resolved before)."""
+    """One per worker process.  The package is imported freshly and get_converter is NEVER called in this
+    process: the reference and every execution run in a child forked from this pristine import-time state,
+    so that no knowledge of the implementation's once-flags, caches or private names is needed to 'reset'."""
 
     def __init__(self, registry_mode):
         impl.setup_paths()
+        for n in [n for n in sys.modules if n == "lsprotocol" or n.startswith("lsprotocol.")]:
+            del sys.modules[n]          # not pristine (somebody imported and perhaps used it): import again
         import lsprotocol.types as lsp
-        from lsprotocol import converters, _hooks
-        self.lsp, self.converters, self.hooks = lsp, converters, _hooks
+        from lsprotocol import converters
+        self.lsp, self.converters = lsp, converters
         self.reg = lsp.ALL_TYPES_MAP
         self.full = dict(self.reg)
-        # snapshot the unresolved annotations of every attrs class before anything resolves them
+        # the unresolved annotations of every attrs class (for the closure computation only)
         self.orig = {}
         for n, c in self.full.items():
             if isinstance(c, type) and attrs.has(c):
@@ -114,8 +118,6 @@ class Harness:
             self.audit[os.path.basename(f)] = {k: (v[0], v[1]) for k, v in loc.items()}
             self.local_ranges[f] = [(v[2], v[3]) for v in loc.values() if v[0]]
         self.mods = [m for n, m in sys.modules.items() if n.startswith("lsprotocol.") and not n.endswith(".types")]
-        self.mod_snapshot = [(m, dict(m.__dict__)) for m in self.mods]
-        # one full sequential creation: resolves everything, gives the reference observation
         self.battery = [b for b in make_battery(3) if b[0] in ("SelectionRange", "Position", "Location", "DefinitionResponse")]
         # values that go through hooks whose *registration* reads resolved field types
         self.battery += [
@@ -126,14 +128,15 @@ class Harness:
         ]
         if registry_mode != "reduced":
             self.battery += make_battery(2)
-        c = converters.get_converter()
-        self.reference = observe(c, self.battery, lsp)
         self.mode = registry_mode
         if registry_mode == "reduced":
             # closure under annotation references of: a recursive class; the class whose resolved field type
             # is read while hooks are registered; a class whose annotation nests forward references inside
             # a union that needs a registered hook (unresolved, the hook lookup by type equality fails)
-            self.names = self.closure(["SelectionRange", "NotebookCellTextDocumentFilter", "NotebookDocumentSyncOptions"]) + ["LSPAny"]
+            # ... and every class the battery parses (in a pristine process nothing outside the registry is resolved)
+            seeds = ["SelectionRange", "NotebookCellTextDocumentFilter", "NotebookDocumentSyncOptions"]
+            seeds += [b[0] for b in self.battery if b[0] not in seeds]
+            self.names = self.closure(seeds) + ["LSPAny"]
         else:
             self.names = [n for n in self.full if n != "__builtins__"]
         self._cache = {}
@@ -146,7 +149,11 @@ class Harness:
                     cl = S.CoopLock(self.sched_ref, isinstance(v, S._LOCK_TYPES[1]), "%s.%s" % (m.__name__, k))
                     m.__dict__[k] = cl
                     self.locks.append(cl)
-        self.mod_snapshot = [(m, dict(m.__dict__)) for m in self.mods]
+        # one full sequential creation (in a child): resolves everything, gives the reference observation
+        st, r = _in_child(self._reference_exec)
+        if st != "ok":
+            raise RuntimeError("reference execution failed: %s" % (r,))
+        self.reference = r
 
     def closure(self, seeds):
         import re as _re
@@ -200,62 +207,30 @@ class Harness:
         self._cache[code] = r
         return r if r != 0 else None
 
-    def reset(self):
-        self.reg.clear()
-        for n in self.names:
-            self.reg[n] = self.full[n]
-        for n in self.names:
-            lst = self.orig.get(n)
-            if lst is None:
-                continue
-            cls = self.full[n]
-            for a, t in lst:
-                object.__setattr__(a, "type", t)
-            if "__attrs_types_resolved__" in cls.__dict__:
-                delattr(cls, "__attrs_types_resolved__")
-        for m, snap in self.mod_snapshot:
-            for k, v in snap.items():
-                if k.startswith("__"):
-                    continue
-                cur = m.__dict__.get(k, S)
-                if isinstance(v, (bool, int, str, type(None), float)):
-                    # module-level flags: back to their value at import time
-                    if cur is not v:
-                        m.__dict__[k] = v
-                elif isinstance(v, (dict, list, set)) and cur is v:
-                    pass
-            for k in list(m.__dict__):
-                if k not in snap:
-                    del m.__dict__[k]
-        for l in self.locks:
-            l.owner, l.count = None, 0
-
-    def fresh_flags(self):
-        """The once-flags must be in their import-time state (False) for a 'first use'."""
-        for m, snap in self.mod_snapshot:
-            for k, v in snap.items():
-                if isinstance(v, bool) and not k.startswith("__"):
-                    m.__dict__[k] = False if k.startswith("_resolved") else v
-
     def body(self):
         c = self.converters.get_converter()
         return observe(c, self.battery, self.lsp)
 
-    def run_once(self, n, prefix):
-        self.reset()
-        self.fresh_flags()
+    def _reference_exec(self):
+        return self.body()
+
+    def _exec(self, n, prefix):
+        """In a forked child: first use of the package in this process, under the given schedule."""
+        self.reg.clear()
+        for name in self.names:
+            self.reg[name] = self.full[name]
         s = S.Sched(n, prefix, self.is_point)
         self.sched_ref[0] = s
-        try:
-            s.run([self.body] * n)
-        finally:
-            self.sched_ref[0] = None
-        self.restore_registry()
-        return s
+        s.run([self.body] * n)
+        return {"points": [tuple(p) for p in s.points], "trace": list(s.trace), "results": s.results, "errors": s.errors,
+                "deadlock": s.deadlock, "n": n}
 
-    def restore_registry(self):
-        self.reg.clear()
-        self.reg.update(self.full)
+    def run_once(self, n, prefix):
+        import types as _types
+        st, r = _in_child(self._exec, n, list(prefix))
+        if st != "ok":
+            r = {"points": [], "trace": [], "results": [None] * n, "errors": [("HarnessChild", str(r)[:160], None)] * n, "deadlock": False, "n": n}
+        return _types.SimpleNamespace(**r)
 
 
 def _sched_worker(args):
